@@ -116,15 +116,6 @@ Proof. induction K1 as [|f K IH]; cbn; [reflexivity|]. destruct f; now rewrite I
 Definition okctx (K : list frame) : Prop := K = [] \/ exists K' offs, K = K' ++ [FList offs].
 
 (* ------------------------------------------------------------------ running command lists *)
-Fixpoint run (o : opts) (b : builder) (cs : list cmd) : res builder :=
-  match cs with
-  | [] => Ok b
-  | c :: t => match ab_step o b c with
-              | (b', None) => run o b' t
-              | (_, Some e) => Err e
-              end
-  end.
-
 Lemma run_app o cs1 : forall b cs2, run o b (cs1 ++ cs2) = do b' <- run o b cs1; run o b' cs2.
 Proof.
   induction cs1 as [|c t IH]; intros; cbn [app run]; [reflexivity|].
